@@ -95,12 +95,19 @@ def canon_key(e, atoms):
             if z3.is_real(a) or z3.is_int(a):
                 try:
                     p = reduce_trig(cancel_inverses(to_poly(a, atoms)), _ctx["pairs"])
+                    if _sq_table(atoms):
+                        p = reduce_trig(cancel_inverses(reduce_sqrt(p, _sq_table(atoms))), _ctx["pairs"])
+                        p = merge_sqrt(p, atoms)
                     parts.append(repr(sorted((m, str(c)) for m, c in p.t.items())))
                     continue
                 except NotPolynomial:
                     pass
             parts.append(a.sexpr())
         return "%s(%s)" % (e.decl().name(), ";".join(parts))
+    if z3.is_app(e) and e.num_args() > 0:
+        # interpreted non-polynomial atoms (ite, to_int, ...): keyed by their simplified form, so that the same
+        # term before and after a z3.simplify pass is one indeterminate
+        return z3.simplify(e).sexpr()
     return e.sexpr()
 
 
@@ -109,6 +116,42 @@ def _atom_name(atoms, idx):
         if i == idx:
             return t.sexpr()
     return "?%d" % idx
+
+
+def _atom_term(atoms, idx):
+    for k, (i, t) in atoms.items():
+        if i == idx:
+            return t
+    return None
+
+
+# name of an inverse constant (inv!<hash>) -> the z3 term it inverts, across conversions
+_INV_TERMS = {}
+
+
+def expand_inverses(e):
+    """Replace the inverse constants (inv!<hash>, invp!<hash>) that conversions introduced by 1 / <the term they
+    invert>, recursively: a term rebuilt from a normal form can then be substituted into (the constants are opaque
+    to z3.substitute, although they depend on the variables of the inverted term)."""
+    seen = {}
+
+    def consts(t, acc):
+        if t.get_id() in seen:
+            return
+        seen[t.get_id()] = True
+        if z3.is_app(t):
+            if t.num_args() == 0 and t.decl().kind() == z3.Z3_OP_UNINTERPRETED and t.decl().name() in _INV_TERMS:
+                acc[t.decl().name()] = t
+            for ch in t.children():
+                consts(ch, acc)
+    for _ in range(8):
+        acc = {}
+        seen.clear()
+        consts(e, acc)
+        if not acc:
+            return e
+        e = z3.substitute(e, *[(t, z3.RealVal(1) / _INV_TERMS[n]) for n, t in acc.items()])
+    raise NotPolynomial("inverse constants nest too deeply")
 
 
 def _stable(text):
@@ -131,7 +174,145 @@ def _inv_table(atoms):
                 if k != id(atoms):
                     del _INV_TABLES[k]
     return ent[1]
-_ctx = {"pairs": []}   # (sin index, cos index) pairs known while converting (set by decide)
+_ctx = {"pairs": [], "nonneg": None}   # (sin index, cos index) pairs known while converting (set by decide);
+                                       # nonneg: names of constants known to be >= 0 (enables canon_sqrt)
+
+# index of a sqrt atom -> Poly radicand, PER atom table (filled when the atom is registered)
+_SQ_TABLES = {}
+
+
+def _sq_table(atoms):
+    ent = _SQ_TABLES.get(id(atoms))
+    if ent is None or ent[0] is not atoms:
+        ent = (atoms, {})
+        _SQ_TABLES[id(atoms)] = ent
+        if len(_SQ_TABLES) > 4096:
+            for k in list(_SQ_TABLES)[:2048]:
+                if k != id(atoms):
+                    del _SQ_TABLES[k]
+    return ent[1]
+
+
+def _is_nonneg_atom(atoms, idx):
+    """constants named in _ctx['nonneg'] and inverses of such."""
+    t = _atom_term(atoms, idx)
+    if t is None or not z3.is_app(t):
+        return False
+    if t.num_args() == 0:
+        names = _ctx.get("nonneg") or ()
+        if t.decl().name() in names:
+            return True
+        base = _inv_table(atoms).get(idx)
+        if base is not None:
+            return _is_nonneg_atom(atoms, base)
+    return False
+
+
+def poly_to_term(P, atoms):
+    byidx = {i: t for k, (i, t) in atoms.items()}
+    tot = None
+    for m, cf in sorted(P.t.items(), key=lambda kv: repr(kv[0])):
+        term = z3.RealVal(str(cf))
+        for v, e in m:
+            for _ in range(e):
+                term = term * byidx[v]
+        tot = term if tot is None else tot + term
+    return tot if tot is not None else z3.RealVal(0)
+
+
+def _squarefree_split(n):
+    """n = a*a*f with f square-free (trial division; None when n is too large to factor quickly)."""
+    if n > 10 ** 14:
+        return None
+    a, f, d = 1, 1, 2
+    while d * d <= n:
+        k = 0
+        while n % d == 0:
+            n //= d
+            k += 1
+        a *= d ** (k // 2)
+        if k % 2:
+            f *= d
+        d += 1 if d == 2 else 2
+    return a, f * n
+
+
+def merge_sqrt(p, atoms):
+    """sqrt(R1) sqrt(R2) -> sqrt(R1 R2) (canonical, see canon_sqrt) inside every monomial: after reduce_sqrt each
+    monomial then holds at most one sqrt atom, so products of roots and roots of products name the same atom."""
+    sq = _sq_table(atoms)
+    if not sq or _ctx.get("nonneg") is None:
+        return p
+    out = Poly()
+    for m, cf in p.t.items():
+        roots = [v for v, e in m if v in sq and e == 1]
+        if len(roots) < 2:
+            out = out + Poly({m: cf})
+            continue
+        R = Poly.const(1)
+        for v in roots:
+            R = R * sq[v]
+        R = reduce_trig(cancel_inverses(R), _ctx["pairs"])
+        r = canon_sqrt(R, atoms)
+        if r is None:
+            out = out + Poly({m: cf})
+            continue
+        rest = Poly({tuple((v, e) for v, e in m if v not in roots): cf})
+        out = out + rest * r
+    return out
+
+
+def canon_sqrt(P, atoms):
+    """Poly for sqrt(P) in canonical form  m * sqrt(P0):  inverses of non-negative atoms cleared from the radicand,
+    even powers of non-negative atoms common to all monomials and the square part of the rational content taken
+    out (sqrt(v^2 P) = v sqrt(P) needs v >= 0: only atoms accepted by _is_nonneg_atom are moved).  Two radicands
+    that differ by such a factor then name the same indeterminate."""
+    import math
+    out = Poly.const(1)
+    inv = _inv_table(atoms)
+    # inverses
+    for iv, v in list(inv.items()):
+        e = max((dict(m).get(iv, 0) for m in P.t), default=0)
+        if e == 0 or not _is_nonneg_atom(atoms, v):
+            continue
+        k = e + (e % 2)
+        P = cancel_inverses(P * Poly({((v, k),): Fraction(1)}))
+        out = out * Poly({((iv, k // 2),): Fraction(1)})
+    if P.is_zero():
+        return None
+    # common even powers
+    common = None
+    for m in P.t:
+        d = dict(m)
+        common = d if common is None else {v: min(e, d[v]) for v, e in common.items() if v in d}
+    for v, e in sorted((common or {}).items()):
+        k = e // 2
+        if k and _is_nonneg_atom(atoms, v):
+            P = Poly({tuple(sorted((vv, ee - (2 * k if vv == v else 0)) for vv, ee in m
+                                   if ee - (2 * k if vv == v else 0) > 0)): cf for m, cf in P.t.items()})
+            out = out * Poly({((v, k),): Fraction(1)})
+    # rational content
+    num = 0
+    den = 1
+    for cf in P.t.values():
+        num = math.gcd(num, abs(cf.numerator))
+        den = den * cf.denominator // math.gcd(den, cf.denominator)
+    sp = _squarefree_split(num * den)
+    if sp is not None:
+        a, f = sp
+        s = Fraction(a, den)            # content = num/den = (num*den)/den^2 = a^2 f / den^2
+        if s != 1:
+            P = P.scale(1 / (s * s))
+            out = out.scale(s)
+    r = perfect_square_root(P)
+    if r is not None:
+        return out * r
+    term = z3.Function("sqrt", z3.RealSort(), z3.RealSort())(poly_to_term(P, atoms))
+    key = canon_key(term, atoms)
+    if key not in atoms:
+        atoms[key] = (len(atoms), term)
+        _sq_table(atoms)[atoms[key][0]] = P
+    return out * Poly.var(atoms[key][0])
 
 
 def perfect_square_root(P):
@@ -208,20 +389,24 @@ def to_poly(e, atoms, limit=30000):
                     (m, c), = den.t.items()
                     r = r.scale(1 / c)
                     for v, e_ in m:
-                        key = "inv!%d" % v
+                        # the z3 name is a function of the inverted atom only, so the same
+                        # inverse gets the same constant in every conversion (terms built from
+                        # normal forms are converted again with a fresh atom table); the atom is
+                        # keyed by that name, so an inverse that comes back inside a rebuilt term
+                        # as the constant inv!<hash> is the same indeterminate
+                        key = "inv!" + _stable(_atom_name(atoms, v))
                         if key not in atoms:
-                            # the z3 name is a function of the inverted atom only, so the same
-                            # inverse gets the same constant in every conversion (terms built from
-                            # normal forms are converted again with a fresh atom table)
-                            atoms[key] = (len(atoms), z3.Real("inv!" + _stable(_atom_name(atoms, v))))
+                            atoms[key] = (len(atoms), z3.Real(key))
                             _inv_table(atoms)[atoms[key][0]] = v
+                            _INV_TERMS[key] = _atom_term(atoms, v)
                         r = r * Poly({((atoms[key][0], e_),): Fraction(1)})
                 else:
                     canon = repr(sorted((sorted((_atom_name(atoms, v), e_) for v, e_ in mm), str(cc))
                                         for mm, cc in den.t.items()))
-                    key = "inv!poly!" + canon
+                    key = "invp!" + _stable(canon)
                     if key not in atoms:
-                        atoms[key] = (len(atoms), z3.Real("invp!" + _stable(canon)))
+                        atoms[key] = (len(atoms), z3.Real(key))
+                    _INV_TERMS.setdefault(key, ch[1])
                     r = r * Poly.var(atoms[key][0])
                 r = cancel_inverses(r)
             elif kind == z3.Z3_OP_TO_REAL:
@@ -236,15 +421,29 @@ def to_poly(e, atoms, limit=30000):
                 r = None
                 if e.decl().name() == "sqrt" and e.num_args() == 1:
                     # sqrt(t^2) = t for t >= 0 (stated assumption), radicand taken modulo the trig relations
+                    P = None
                     try:
                         P = reduce_trig(cancel_inverses(walk(e.arg(0))), _ctx["pairs"])
+                        if _sq_table(atoms):
+                            P = reduce_trig(cancel_inverses(reduce_sqrt(P, _sq_table(atoms))), _ctx["pairs"])
                         r = perfect_square_root(P)
+                        if r is None and _ctx.get("nonneg") is not None and not P.is_zero():
+                            r = canon_sqrt(P, atoms)
                     except NotPolynomial:
                         r = None
                 if r is None:
                     s = canon_key(e, atoms)
                     if s not in atoms:
                         atoms[s] = (len(atoms), e)
+                        if e.decl().name() == "sqrt" and e.num_args() == 1 and P is not None:
+                            _sq_table(atoms)[atoms[s][0]] = P
+                        base = _INV_TERMS.get(s) if e.num_args() == 0 else None
+                        if base is not None:
+                            # the constant inv!<hash> of an earlier conversion: link it to the atom it inverts
+                            pb = walk(base)
+                            if len(pb.t) == 1 and list(pb.t.values())[0] == 1 and len(list(pb.t)[0]) == 1 \
+                                    and list(pb.t)[0][0][1] == 1:
+                                _inv_table(atoms)[atoms[s][0]] = list(pb.t)[0][0][0]
                     r = Poly.var(atoms[s][0])
         else:
             raise NotPolynomial("unsupported term")
@@ -368,7 +567,7 @@ def split_goal(goal):
     return None
 
 
-def decide(goal, trig_pairs=()):
+def decide(goal, trig_pairs=(), nonneg=None):
     """Returns ('unsat', None) if every equality is an identity modulo the trig
     relations, ('sat', witness) with a numeric assignment of the atoms when a
     difference evaluates to non-zero, or ('unknown', None)."""
@@ -377,6 +576,15 @@ def decide(goal, trig_pairs=()):
         return "unknown", None
     atoms = {}
     _ctx["pairs"] = []
+    _ctx["nonneg"] = set(nonneg) if nonneg is not None else None
+    try:
+        return _decide(eqs, atoms, trig_pairs)
+    finally:
+        _ctx["nonneg"] = None
+        _ctx["pairs"] = []
+
+
+def _decide(eqs, atoms, trig_pairs):
     try:
         pairs = []
         for s, c in trig_pairs:
@@ -420,6 +628,10 @@ def decide(goal, trig_pairs=()):
         r = reduce_trig(cancel_inverses(d), pairs)
         if sq:
             r = reduce_trig(reduce_sqrt(r, sq), pairs)
+            if _ctx.get("nonneg") is not None:
+                _ctx["pairs"] = pairs
+                r = reduce_trig(cancel_inverses(merge_sqrt(r, atoms)), pairs)
+                _ctx["pairs"] = []
         r = combine_exp(r, atoms)
         if not r.is_zero():
             bad.append(r)
